@@ -63,6 +63,7 @@ func forEachParallelInnerLoop(p *lang.Process, block []rune, varName string, var
 	if varName != "!" {
 		err = fork.Variables.Set(p, varName, varValue, dataType)
 		if err != nil {
+			lang.GlobalFIDs.Deregister(fork.Id)
 			p.Stderr.Writeln([]byte("error: " + err.Error()))
 			p.Done()
 			return
@@ -70,12 +71,14 @@ func forEachParallelInnerLoop(p *lang.Process, block []rune, varName string, var
 	}
 
 	if !setMetaValues(fork.Process, iteration) {
+		lang.GlobalFIDs.Deregister(fork.Id)
 		return
 	}
 
 	fork.Stdin.SetDataType(dataType)
 	_, err = fork.Stdin.Writeln(b)
 	if err != nil {
+		lang.GlobalFIDs.Deregister(fork.Id)
 		p.Stderr.Writeln([]byte("error: " + err.Error()))
 		p.Done()
 		return
